@@ -8,6 +8,7 @@ import (
 	"github.com/gardenbed/emerge/zz_verif/c13"
 	"github.com/gardenbed/emerge/zz_verif/c14"
 	"github.com/gardenbed/emerge/zz_verif/c18"
+	"github.com/gardenbed/emerge/zz_verif/c19"
 	"github.com/gardenbed/emerge/zz_verif/simrt"
 )
 
@@ -17,5 +18,6 @@ func main() {
 		c13.Engine{FixtureDir: fx},
 		c14.Engine{FixtureDir: fx, EmergeBin: os.Getenv("VERIF_EMERGE_BIN")},
 		c18.Engine{FixtureDir: fx},
+		c19.Engine{GoCmd: os.Getenv("VERIF_GO")},
 	)
 }
